@@ -4,7 +4,7 @@
    Statements only; proofs are in Proofs/DecFloat.v and Proofs/DecFloatRefuted.v. *)
 From Coq Require Import ZArith NArith List Bool Reals.
 From Flocq Require Import Core.Core IEEE754.BinarySingleNaN.
-From PV Require Import Model.DecFloatTables Model.DecFloat Proofs.DecFloat Proofs.DecFloatRefuted.
+From PV Require Import Model.DecFloatTables Model.DecFloat Proofs.DecFloat Archive.DecFloatRefuted.
 Import ListNotations.
 
 (* "converting it to a 64-bit float gives the nearest representable value, ties to even" is FALSE
